@@ -3,6 +3,7 @@
 package main
 
 import (
+	"time"
 	"github.com/tinode/chat/server/auth"
 	"github.com/tinode/chat/server/store/types"
 )
@@ -60,7 +61,8 @@ func verifPubSetup(cfg verifPubCfg) *verifPubWorld {
 	for i, u := range fx.uids {
 		pud := t.perUser[u]
 		pud.modeWant, pud.modeGiven = verifMode("want"), verifMode("given")
-		if cfg.kind == verifKindGrp || cfg.kind == verifKindChn {
+		if cfg.kind == verifKindP2P {
+			// a p2p participant who unsubscribed stays in the live table, marked removed, modes retained
 			pud.deleted = verifNondetBool("removed")
 		}
 		if cfg.kind == verifKindChn && cfg.chanUser && i == cfg.nUsers-1 {
@@ -174,7 +176,8 @@ func verifPubSetup(cfg verifPubCfg) *verifPubWorld {
 	apud := t.perUser[w.author]
 	inactive := t.status&(topicStatusPaused|topicStatusMarkedDeleted) != 0
 	readOnly := t.status&topicStatusReadOnly != 0
-	writer := w.authorIn && (apud.modeWant&apud.modeGiven).IsWriter()
+	// "the author is currently subscribed with write permission": a removed participant is not subscribed
+	writer := w.authorIn && !apud.deleted && (apud.modeWant&apud.modeGiven).IsWriter()
 	w.expectAcc = !inactive && !readOnly && (cfg.kind == verifKindSys || writer) && !badAddr
 	return w
 }
@@ -351,6 +354,19 @@ func harnessC02(cfg verifPubCfg) {
 		verifAssert(p.PushRcpt.Payload.SeqId == o.ackSeq && p.PushRcpt.Payload.Content == w.content, "push-payload")
 	}
 	verifAssert(nPush <= 1, "at-most-one-push")
+	// somebody to notify - a subscriber with read and presence, or the channel's readers behind the broadcast
+	// address - means a push is issued
+	anybody := t.isChan
+	for _, u := range w.fx.uids {
+		pud := t.perUser[u]
+		mode := pud.modeWant & pud.modeGiven
+		if mode.IsReader() && mode.IsPresencer() && !pud.deleted && !pud.isChan {
+			anybody = true
+		}
+	}
+	if anybody && t.cat != types.TopicCatSys {
+		verifAssert(nPush == 1, "push-issued-when-there-is-somebody-to-notify")
+	}
 	verifReach("end")
 }
 
@@ -488,6 +504,17 @@ func harnessC01Desc(kind int) {
 	get := &ClientComMessage{Id: "g1", AsUser: author.UserId(), AuthLvl: int(auth.LevelAuth), Original: name, RcptTo: t.name,
 		Timestamp: types.TimeNow(), sess: sess, init: true, MetaWhat: constMsgMetaDesc,
 		Get: &MsgClientGet{Id: "g1", Topic: name, MsgGetQuery: MsgGetQuery{What: "desc"}}}
+	// the client may say what it already has: "if modified since" before or after the topic's last metadata
+	// change - an accepted message does not count as one, yet its number must show
+	t.updated = time.Unix(1700000000, 0).UTC()
+	switch verifChoose("ifModifiedSince", 3) {
+	case 1:
+		ims := t.updated.Add(-time.Hour)
+		get.Get.Desc = &MsgGetOpts{IfModifiedSince: &ims}
+	case 2:
+		ims := t.updated.Add(time.Hour)
+		get.Get.Desc = &MsgGetOpts{IfModifiedSince: &ims}
+	}
 	t.handleMeta(get)
 	reader := (pud.modeWant & pud.modeGiven).IsReader()
 	found := false
